@@ -67,7 +67,7 @@ fn start_call(op: &str, buf: TempFileBuffer<SharedSink>, out: SharedSink) -> mps
 pub fn run_case(c: &Value) -> Value {
     let inmem = c["inmem"].as_i64().unwrap_or(1) == 1;
     let hist = c["hist"].as_array().expect("hist");
-    let sink = SharedSink::with(PRE.to_vec());
+    let sink = SharedSink::with_short(PRE.to_vec(), c["short"].as_u64().unwrap_or(0) as usize);
     let (b, w): (TempFileBuffer<SharedSink>, TempFileBufferWriter<SharedSink>) = TempFileBuffer::new(inmem);
     let mut buf = Some(b);
     let mut writer = Some(w);
@@ -199,7 +199,7 @@ pub fn run_threaded_case(c: &Value) -> Value {
     let seed = c["seed"].as_u64().unwrap_or(1);
     let pp: Vec<i64> = c["pp"].as_array().unwrap().iter().map(|v| v.as_i64().unwrap()).collect();
     let cp = c["cp"].as_str().unwrap().to_string();
-    let sink = SharedSink::with(PRE.to_vec());
+    let sink = SharedSink::with_short(PRE.to_vec(), c["short"].as_u64().unwrap_or(0) as usize);
     let (b, w): (TempFileBuffer<SharedSink>, TempFileBufferWriter<SharedSink>) = TempFileBuffer::new(inmem);
     let clock = Arc::new(AtomicU64::new(1));
     let (etx, erx) = mpsc::channel::<Value>();
@@ -302,7 +302,7 @@ pub fn run_race_case(c: &Value) -> Value {
         let k = (rng.next() % 3) as usize; // writes before the drop
         let off_p = rng.next() % 400;
         let off_c = rng.next() % 400;
-        let sink = SharedSink::with(PRE.to_vec());
+        let sink = SharedSink::with_short(PRE.to_vec(), c["short"].as_u64().unwrap_or(0) as usize);
         let (mut b, mut w): (TempFileBuffer<SharedSink>, TempFileBufferWriter<SharedSink>) = TempFileBuffer::new(inmem);
         let barrier = Arc::new(std::sync::Barrier::new(2));
         if prog == "switch_await" {
